@@ -82,6 +82,11 @@ package masks
 //@   // C05: whatever the update mask says, the source is first cut down to the writable fields, then to the update mask:
 //@   // two filters when both are set, so a path that validation let through as a prefix of a narrower writable path cannot
 //@   // carry sibling fields into the store
+//@   // C05 frame: what the merge may CLEAR is bounded by the writable fields as well: the mask handed to pruneEmpty has to
+//@   // be the update mask restricted to the writable fields (one intersection), not the update mask itself
+//@   track Intersect
+//@   ensures [prune-within-writable] old(recv.writableFields) != nil && len(old(recv.writableFields.Paths)) > 0 && old(recv.updateMask) != nil && len(old(recv.updateMask.Paths)) > 0 ==> calls(Intersect) > old(calls(Intersect))
+//@   replay [prune-within-writable] PruneOutsideWritable()
 //@   track Filter
 //@   ensures [writable-filter] old(recv.writableFields) != nil && len(old(recv.writableFields.Paths)) > 0 && old(recv.updateMask) != nil && len(old(recv.updateMask.Paths)) > 0 ==> calls(Filter) == old(calls(Filter)) + 2
 //@   ensures [mask-filter] (old(recv.writableFields) == nil || len(old(recv.writableFields.Paths)) > 0) && (old(recv.updateMask) == nil || len(old(recv.updateMask.Paths)) > 0) ==> calls(Filter) >= old(calls(Filter)) + 1
